@@ -221,11 +221,6 @@ Lemma bind_assoc {A B C} (m : res A) (f : A -> res B) (g : B -> res C) :
   (y <- (x <- m ;; f x) ;; g y) = (x <- m ;; y <- f x ;; g y).
 Proof. destruct m; reflexivity. Qed.
 
-(* the struct a private key is expanded into, from the decoded/generated components *)
-Definition sk_of (rho k tr : bytes) (s1 s2 t0 : list (list Z)) : res PrivateKey :=
-  a <- ntt_mont s1 ;; b <- ntt_mont s2 ;; c <- ntt_mont t0 ;; Ok (mkSK rho k tr a b c).
-Definition pk_of (rho tr : bytes) (t1 : list (list Z)) : res PublicKey :=
-  a <- t1_precompute t1 ;; Ok (mkPK rho tr a).
 
 Section K.
 Variable H : Hashes.
